@@ -14,7 +14,7 @@
                      deltas(n * tsize)  outputs(n * osize)  [final output (osize) if f]
      sizes = tsize << 4 | osize;  delta 0 = the shared empty final node (address 0),
      otherwise target = (address of this node's first byte) - delta. *)
-Require Import FstV.Base FstV.Pack FstV.Node.
+Require Import FstV.Base FstV.Pack FstV.Node FstV.GraphSem.
 Require Import Coq.FSets.FMapPositive.
 
 (* pinned constants of the format (never read from the source; ParamsTie.v proves the source agrees) *)
@@ -167,23 +167,10 @@ Definition empty_final : snode := mkSnode true 0 [] 0.
 Definition tbl_get (m : PositiveMap.t snode) (a : N) : option snode :=
   if a =? 0 then Some empty_final else PositiveMap.find (N.succ_pos a) m.
 
-(* the pairs reachable from an address, in key order; fuel bounds the depth *)
-Fixpoint lang (m : PositiveMap.t snode) (fuel : nat) (a : N) : option kmap :=
-  match fuel with
-  | O => None
-  | S f =>
-    match tbl_get m a with
-    | None => None
-    | Some n =>
-      let subs := map (fun t => match lang m f (t_addr t) with
-                                | Some l => Some (map (fun kv => (t_inp t :: fst kv, t_out t + snd kv)) l)
-                                | None => None end) (sn_trans n) in
-      if forallb (fun o => match o with Some _ => true | None => false end) subs then
-        Some ((if sn_final n then [([], sn_fout n)] else []) ++
-              concat (map (fun o => match o with Some l => l | None => [] end) subs))
-      else None
-    end
-  end.
+(* the graph a node table denotes; the language of an address is GraphSem.lang over it *)
+Definition gnode_of (n : snode) : gnode := mkG (sn_final n) (sn_fout n) (sn_trans n).
+Definition graph_of (m : PositiveMap.t snode) : graph :=
+  fun a => match PositiveMap.find (N.succ_pos a) m with Some n => Some (gnode_of n) | None => None end.
 
 Record parsed := mkParsed { p_version : N; p_ty : N; p_len : N; p_root : N; p_checksum : option N;
                             p_nodes : list (N * snode); p_content : kmap }.
@@ -216,7 +203,7 @@ Definition spec_parse (bs : list N) : option parsed :=
     (* every transition target is 0 or the address of a node *)
     if negb (forallb (fun x => forallb (fun t => match tbl_get tbl (t_addr t) with Some _ => true | None => false end)
                                        (sn_trans (snd x))) nodes) then None else
-    match lang tbl (S n) root with
+    match lang (graph_of tbl) (S n) root with
     | Some content => Some (mkParsed version ty flen root cks nodes content)
     | None => None
     end
